@@ -1191,6 +1191,21 @@ def main(out_path):
         need(len(unk) == 2 and ast.unparse(unk[0]) == "texts.append(('warn', 'unknown algorithm'))", 'output_algorithm: the unknown-name branch: %r' % ([ast.unparse(x)[:60] for x in unk],))
     soft('notes of one algorithm (output_algorithm)', ['C03'], ex_alg_texts)
 
+    def ex_gss_lookup():
+        # the gss-* wildcard normalisation is done twice: output_algorithm() (text) and build_struct.fetch_notes() (JSON); same test, same rewrite
+        oa = func_node(t_main, 'output_algorithm')
+        fnn = func_node(t_main, 'build_struct.fetch_notes')
+        t1 = [n for n in ast.walk(oa) if isinstance(n, ast.If) and "startswith('gss-')" in ast.unparse(n.test)]
+        t2 = [n for n in ast.walk(fnn) if isinstance(n, ast.If) and "startswith('gss-')" in ast.unparse(n.test)]
+        need(len(t1) == 1 and len(t2) == 1, 'gss-* normalisation sites')
+        w(kernel('src_gss_lookup_text', [('alg_type', 'string'), ('alg_name', 'string')], [ast.Return(value=t1[0].test)]))
+        w(kernel('src_gss_lookup_json', [('alg_type', 'string'), ('algorithm', 'string')], [ast.Return(value=t2[0].test)]))
+        b1 = [ast.unparse(x) for x in t1[0].body]
+        b2 = [ast.unparse(x) for x in t2[0].body]
+        need(b1 == ["last_dash = alg_name.rindex('-')", "alg_name = '%s-*' % alg_name[0:last_dash]"], 'output_algorithm: rewrite to the wildcard name: %r' % (b1,))
+        need(b2 == ["algorithm = '%s-*' % algorithm[0:algorithm.rindex('-')]"], 'fetch_notes: rewrite to the wildcard name: %r' % (b2,))
+    soft('gss-* lookup-name test, text and JSON sites', ['C03'], ex_gss_lookup)
+
     def ex_first_packet():
         # audit(): what the first packet leads to - the automatic SSH-1 retry, and which message types are an error
         au = func_node(t_main, 'audit')
